@@ -98,10 +98,26 @@ def gen_static_spec(rng):
     features = "languagesystem DFLT dflt;\n"
     if len(names) >= 2:
         features += "feature liga { sub %s by %s; } liga;\n" % (names[0], names[1])
+    info = {"unitsPerEm": 1000, "familyName": "T", "styleName": "R", "ascender": 800,
+            "descender": -200, "xHeight": 500, "capHeight": 700}
+    if rng.random() < 0.4:
+        # list-valued info attributes with fractional items (any derived value has to be computed
+        # on a copy, the caller's lists stay as they are)
+        info.update({"postscriptBlueValues": [-12.6, 0, 486.5, 498.25, 712.4, 724.5],
+                     "postscriptOtherBlues": [-250.5, -238.25],
+                     "postscriptFamilyBlues": [-12.6, 0, 486.5, 498.25],
+                     "postscriptFamilyOtherBlues": [-250.5, -238.25],
+                     "postscriptStemSnapH": [80.5, 90.25], "postscriptStemSnapV": [88.5, 96.75],
+                     "openTypeOS2Panose": [2, 11, 5, 2, 4, 5, 4, 2, 2, 4],
+                     "openTypeOS2Selection": [7], "openTypeOS2UnicodeRanges": [0, 1, 2],
+                     "openTypeOS2CodePageRanges": [0, 1],
+                     "openTypeNameRecords": [{"nameID": 5, "platformID": 3, "encodingID": 1,
+                                              "languageID": 0x409, "string": "Version 1"}],
+                     "openTypeGaspRangeRecords": [{"rangeMaxPPEM": 65535,
+                                                   "rangeGaspBehavior": [0, 1]}],
+                     "styleMapStyleName": rng.choice(["regular", "bold italic", "italic"])})
     return {"glyphs": glyphs, "kerning": kerning, "groups": groups, "lib": lib,
-            "features": features,
-            "info": {"unitsPerEm": 1000, "familyName": "T", "styleName": "R", "ascender": 800,
-                     "descender": -200, "xHeight": 500, "capHeight": 700}}
+            "features": features, "info": info}
 
 
 LIB_FILTERS = [
